@@ -791,3 +791,27 @@ func DebugFault(profile string, draws []uint32, aux []int64) {
 	}
 	fmt.Printf("top: vm=%q model=%q viol=%v\n", r.out.TopError, bestR.TopError, r.viol)
 }
+
+// Reproduce runs the canonical reproducer of an open known finding (core.Reproducer).
+func (e *Engine) Reproduce(key string, cfg *core.Config) (known bool, reproduced bool, detail string) {
+	if key != "xpcall_handler_at_full_call_stack" {
+		return false, false, ""
+	}
+	// the error is a call-stack overflow: the handler must run once, before unwinding, and its result is what the
+	// caller receives - like for every other error
+	L := lua.NewState(lua.Options{CallStackSize: 64, RegistrySize: 4096})
+	defer L.Close()
+	ran := 0
+	L.SetGlobal("note", L.NewFunction(func(*lua.LState) int { ran++; return 0 }))
+	err := L.DoString(`local function rec(n) return rec(n + 1) + 1 end
+local ok, r = xpcall(function() return rec(1) end, function(m) note() return "H" end)
+RES = tostring(ok) .. ":" .. tostring(r)`)
+	if err != nil {
+		return true, true, "the reproducer failed: " + err.Error()
+	}
+	res := L.GetGlobal("RES").String()
+	if i := strings.Index(res, "\n"); i >= 0 {
+		res = res[:i]
+	}
+	return true, ran != 1 || res != "false:H", fmt.Sprintf("xpcall over runaway recursion under CallStackSize 64: the handler ran %d time(s), xpcall returned %s; expected 1 and false:H", ran, res)
+}
